@@ -104,6 +104,7 @@ class Scenario:
         else:
             self.probes = [aprobe.Probe(node, self.log, mode=m, pid=i + 1) for i, m in enumerate(cfg.get("cons", ["future"]))]
         self.next_elem = 0
+        self.idle_steps = 0      # consecutive loop iterations without an observable event (busy-wait detection)
         self.tags = {}
         self.per_src = [0] * self.nsrc
 
@@ -157,6 +158,8 @@ class Scenario:
                 loop.do(f.set_result, None)
         elif c == "s":
             loop.step()
+            # map_async polls for a free slot with sleep(0): the ready queue never empties while it waits
+            self.idle_steps = self.idle_steps + 1 if len(log.ev) == n0 else 0
         elif c == "a":
             t0 = loop.time()
             t = loop.advance()
@@ -166,6 +169,8 @@ class Scenario:
             t = loop.advance(1)
             log.add("time", now=t)
         log.poll()
+        if c != "s" and len(log.ev) > n0:
+            self.idle_steps = 0
         if len(log.ev) > n0:
             log.ev[-1]["obs"] = self.obs()
             log.ev[-1]["op"] = c + (str(arg) if arg else "")
@@ -188,7 +193,7 @@ class Scenario:
         if c == "F":
             return sum(1 for _, f in self.tasks if not f.done()) > 1
         if c == "s":
-            return loop.live_ready() > 0 or loop.due() > 0
+            return (loop.live_ready() > 0 or loop.due() > 0) and self.idle_steps < 3
         # the clock moves only while the loop is idle ("timers fire on time")
         if c == "a":
             nt = loop.next_timer()
@@ -203,7 +208,7 @@ class Scenario:
         log.add("drain")
         for _ in range(60):
             moved = False
-            while loop.live_ready() or loop.due():
+            while (loop.live_ready() or loop.due()) and self.idle_steps < 3:
                 self.op("s")
                 moved = True
             if log.pending:
@@ -214,6 +219,8 @@ class Scenario:
                 self.op("f")
                 moved = True
                 continue
+            if self.idle_steps >= 3:
+                break          # only a busy-wait is left
             if moved:
                 continue
             # periodic nodes tick forever: stop advancing once nothing is held any more
@@ -317,6 +324,7 @@ def main():
     ap.add_argument("--limit", type=int, default=400)
     ap.add_argument("--random", type=int, default=200)
     ap.add_argument("--maxlen", type=int, default=14)
+    ap.add_argument("--explicit", default=None)     # JSON file: list of [cfg, schedule] to run exactly as given
     a = ap.parse_args()
     if a.mutant:
         import mutants
@@ -324,6 +332,10 @@ def main():
     rng = random.Random(a.seed)
     cfgs = json.loads(a.cfgs)
     runs = []
+    if a.explicit:
+        with open(a.explicit) as f:
+            for cfg, sched in json.load(f):
+                runs.append(run(cfg, sched))
     for cfg in cfgs:
         scheds = enumerate_schedules(cfg, a.depth, a.limit, rng) + random_schedules(cfg, a.random, a.maxlen, rng)
         seen = set()
